@@ -70,7 +70,7 @@ def initial_mappings(depth: int):
 
 
 def fresh(cfg) -> MappingSchema:
-    dialect, depth, normalize, init_name, init_map = cfg
+    dialect, depth, normalize, init_name, init_map = cfg[:5]
     return MappingSchema(copy.deepcopy(init_map), dialect=dialect or None, normalize=normalize)
 
 
@@ -156,23 +156,45 @@ def judge(cfg, hist, colspecs, memo):
 
 
 def configs(quick: bool):
+    """(dialect, depth, normalize, init_name, init_map, alphabet kind, max history length)"""
     out = []
-    dialects = ["", "snowflake", "mysql"] if quick else ["", "snowflake", "mysql", "bigquery", "duckdb"]
-    for dialect in dialects:
+    if quick:
+        for dialect in ["", "snowflake", "mysql"]:
+            for depth in (1, 2, 3):
+                for normalize in (True, False):
+                    if normalize is False and dialect not in ("", "snowflake"):
+                        continue
+                    for init_name, init_map in initial_mappings(depth):
+                        out.append((dialect, depth, normalize, init_name, init_map, "small", 3))
+        return out
+    # thorough: (A) the small alphabet at length 4 on depth 1-2, (B) the full alphabet at length 3 in the base
+    # dialect and snowflake, (C) the small alphabet at length 3 in every remaining dialect / normalize setting
+    for dialect in ["", "snowflake"]:
+        for depth in (1, 2):
+            for init_name, init_map in initial_mappings(depth):
+                out.append((dialect, depth, True, init_name, init_map, "small", 4))
+    for dialect in ["", "snowflake"]:
+        for depth in (1, 2, 3):
+            for init_name, init_map in initial_mappings(depth):
+                out.append((dialect, depth, True, init_name, init_map, "full", 3))
+    for dialect in ["", "snowflake", "mysql", "bigquery", "duckdb"]:
         for depth in (1, 2, 3):
             for normalize in (True, False):
                 if normalize is False and dialect not in ("", "snowflake"):
                     continue
                 for init_name, init_map in initial_mappings(depth):
-                    out.append((dialect, depth, normalize, init_name, init_map))
+                    if dialect in ("", "snowflake") and normalize:
+                        continue
+                    out.append((dialect, depth, normalize, init_name, init_map, "small", 3))
     return out
 
 
-def alphabet(cfg, quick):
+def alphabet(cfg, quick=None):
     dialect, depth = cfg[0], cfg[1]
-    colspecs = COLSPECS_QUICK if quick else COLSPECS_FULL
-    kinds = KINDS_QUICK if quick else KINDS_FULL
-    adds, looks = universe(depth, dialect, quick)
+    small = cfg[5] == "small"
+    colspecs = COLSPECS_QUICK if small else COLSPECS_FULL
+    kinds = KINDS_QUICK if small else KINDS_FULL
+    adds, looks = universe(depth, dialect, small)
     ops = [("add", n, ci) for n in adds for ci in range(len(colspecs))]
     ops += [("look", k, n) for n in looks for k in kinds]
     return ops, colspecs
@@ -259,7 +281,7 @@ def show(o):
 
 
 def cfg_json(cfg):
-    return {"dialect": cfg[0], "depth": cfg[1], "normalize": cfg[2], "init": cfg[3], "init_map": cfg[4]}
+    return {"dialect": cfg[0], "depth": cfg[1], "normalize": cfg[2], "init": cfg[3], "init_map": cfg[4], "alphabet": cfg[5]}
 
 
 def shape(hist, only_adds=False):
@@ -305,14 +327,14 @@ def describe(hist):
     return "; ".join(out)
 
 
-def worker(shard, nshards, units, quick, max_len):
+def worker(shard, nshards, units, quick, max_len_unused):
     res = {"transitions": 0, "judged": 0, "nontrivial": 0, "violations": [], "states": 0, "samples": [],
            "outcomes": set(), "ref_disagree": 0, "units": 0}
     for i, (cfg, first) in enumerate(units):
         if i % nshards != shard:
             continue
         ops, colspecs = alphabet(cfg, quick)
-        st = explore(cfg, [first], ops, colspecs, max_len)
+        st = explore(cfg, [first], ops, colspecs, cfg[6])
         for k in ("transitions", "judged", "nontrivial", "states", "ref_disagree"):
             res[k] += st[k]
         res["violations"] += st["violations"][:200]
@@ -334,8 +356,8 @@ def worker(shard, nshards, units, quick, max_len):
 
 def run(ctx: Ctx) -> None:
     quick = ctx.quick
-    max_len = 3 if quick else 4
     cfgs = configs(quick)
+    max_len = max(c[6] for c in cfgs)
     units = []
     for cfg in cfgs:
         ops, _ = alphabet(cfg, quick)
@@ -343,7 +365,7 @@ def run(ctx: Ctx) -> None:
             units.append((cfg, op))
     # interleave so every worker gets a mix of cheap and expensive units
     res = ctx.run_shards(worker, ctx.jobs * 4, units, quick, max_len)
-    alph = {f"{c[0] or 'base'}/d{c[1]}": len(alphabet(c, quick)[0]) for c in cfgs}
+    alph = {f"{c[0] or 'base'}/d{c[1]}/{c[5]}/len{c[6]}": len(alphabet(c, quick)[0]) for c in cfgs}
     ctx.evidence(
         "model_checking",
         {
@@ -378,7 +400,7 @@ def run(ctx: Ctx) -> None:
 
 def replay(ctx: Ctx, case: dict) -> bool:
     c = case["cfg"]
-    cfg = (c["dialect"], c["depth"], c["normalize"], c["init"], c["init_map"])
+    cfg = (c["dialect"], c["depth"], c["normalize"], c["init"], c["init_map"], c.get("alphabet", "small"), 3)
     colspecs = case["colspecs"]
     hist = tuple(tuple(op) for op in case["history"])
     obs, o1, o2, _ = judge(cfg, hist, colspecs, {})
